@@ -204,12 +204,12 @@ func instructionSplit(b []byte) (string, []byte, error) {
 	if len(b) == 0 {
 		return "", nil, fmt.Errorf("argument is empty")
 	}
-	sz := uint8(b[0])
+	sz := int(b[0])
 	if sz == 0 {
 		return "", nil, fmt.Errorf("zero-length argument")
 	}
 	bSz := len(b)
-	if bSz < int(sz) {
+	if bSz < sz+1 {
 		return "", nil, fmt.Errorf("corrupt instruction, len %v less than symbol length: %v", bSz, sz)
 	}
 	r := string(b[1 : 1+sz])
